@@ -60,4 +60,12 @@ func (f os_File) Seek(offset int64, whence int) (int64, error)
 func strconv_FormatUint(i uint64, base int) string
 func progress_NewCountingReader(r os_File) progress_CountingReader
 `},
+	{name: "SnapshotSet", dir: "snapshot", file: "snapshot.go", funcs: []string{
+		"Snapshot.Less", "SnapshotSet.NewestFull", "SnapshotSet.PartitionAtFull"},
+		hints: `
+type raft_SnapshotMeta struct {
+	Index uint64
+	Term  uint64
+}
+`},
 }
